@@ -90,6 +90,7 @@ def _one(py7zr, built, case, strat, res):
     from py7zr.callbacks import ExtractCallback
 
     hist = []  # (event number, thread, virtual time, kind, args, phase)
+    unfinished = []  # handlers entered before close() returned that were still running when it did
     phase = {"p": "extract"}
     d = case["handler_ms"] / 1000.0
 
@@ -99,6 +100,9 @@ def _one(py7zr, built, case, strat, res):
             sched.log(("cb", kind))
             if d:
                 sched.sleep(d)
+                if phase["p"] == "after_close" and hist[-1][5] != "after_close":
+                    # the handler was entered before close() returned and is still running afterwards: not "delivered before"
+                    unfinished.append((kind, args))
 
         def report_start_preparation(self):
             self._ev("pre")
@@ -176,6 +180,7 @@ def _one(py7zr, built, case, strat, res):
         finally:
             sched.shutdown()
     out["hist"] = hist
+    out["unfinished"] = unfinished
     if outdir is not None:
         # what landed on disk: file bytes, and for links the text that was decoded for them
         prods = {}
@@ -205,6 +210,8 @@ def check_history(built, case, o):
     model = {m.name: m for m in built.model}
     if not kinds or kinds[0] != "pre":
         probs.append(("first_event_not_pre", "first callback is %r" % (kinds[:1],)))
+    if o.get("unfinished"):
+        probs.append(("event_after_close", "the handler of %r was still running when close() returned" % (o["unfinished"][0][0],)))
     after = [h for h in hist if h[5] == "after_close"]
     if after:
         probs.append(("event_after_close", "%d callbacks were delivered after close() returned (first: %r)" % (len(after), after[0][3:5])))
